@@ -233,3 +233,6 @@ pub use crate::{
 };
 
 pub use crate::storage::DerefFlaggedStorage;
+
+#[cfg(specs_verif)]
+pub use crate::world::{verif_sched, VerifAllocDump};
